@@ -43,7 +43,8 @@ def families(tier):
         lperms = list(itertools.permutations(range(m)))
         combos = [(po, lo) for po in perms for lo in lperms if not (po == perms[0] and lo == lperms[0])]
         if q and name == "tap_shared_scale":
-            pass  # all listing orders: the producer must also be tried BETWEEN its two consumers
+            # all listing orders (the producer must also be tried BETWEEN its two consumers), reference link order
+            combos = [c for c in combos if c[1] == lperms[0]]
         elif q:
             # reversed listing + reversed linking, and each alone
             pick = {(perms[-1], lperms[-1]), (perms[-1], lperms[0]), (perms[0], lperms[-1])}
